@@ -85,6 +85,14 @@ Proof.
   apply iterator_sound. intros k e H. now apply (pi_heads _ _ I) in H.
 Qed.
 
+(* ... and no entry (no hash) is emitted twice - on any log whatsoever, under any ordering and any options:
+   the traversal records an entry under its own hash and only when that hash is not recorded yet
+   (Proofs/IterNoDup.v; no invariant of the log is needed) *)
+From IpfsLog Require Import Proofs.IterNoDup.
+Theorem C15_never_emits_an_entry_twice l o es c :
+  iterator l o = Ok (es, c) -> NoDup (map e_hash es) /\ NoDup es.
+Proof. intros I. split; [exact (iterator_nodup l o es c I)|exact (iterator_nodup_entries l o es c I)]. Qed.
+
 (* on success the output channel is closed - also for amount 0 *)
 Theorem C15_success_closes_channel l o es c : iterator l o = Ok (es, c) -> c = true.
 Proof. exact (iterator_closes l o es c). Qed.
@@ -121,3 +129,4 @@ Print Assumptions C15_unknown_upper_bound_is_error.
 Print Assumptions C15_nonvacuous.
 Print Assumptions C15_never_panics_in_every_history.
 Print Assumptions C15_emits_only_log_entries_in_every_history.
+Print Assumptions C15_never_emits_an_entry_twice.
